@@ -3,8 +3,6 @@ from typing import TypeVar
 import numpy as np
 
 from reamber.base.Map import Map
-from reamber.base.lists.notes.HitList import HitList
-from reamber.base.lists.notes.HoldList import HoldList
 
 MapType = TypeVar("MapType", bound=Map)
 
@@ -19,7 +17,7 @@ def full_ln(m: MapType, gap: float = 150, ln_as_hit_thres: float = 100) -> MapTy
     """
 
     m = m.deepcopy()
-    df = m.stack((HitList, HoldList))._stacked
+    df = m.stack((type(m.hits), type(m.holds)))._stacked
     dfgs = (
         df.loc[:, ["offset", "column", "length"]]
         .sort_values(["offset"])
